@@ -26,8 +26,8 @@ const EMPTY_INPUTS: &[&[u8]] = &[
 
 fn special_family(rng: &mut Rng, cfg: &GenCfg) -> Option<Vec<Doc>> {
     let which = rng.below(40);
-    // the huge-schema family is expensive to observe: once in 600 sessions
-    let which = if which == 4 && !rng.pct(7) { 39 } else { which };
+    // the huge-schema and huge-table families are expensive: once in 600 sessions each
+    let which = if (which == 4 || which == 5) && !rng.pct(7) { 39 } else { which };
     family(rng, cfg, which)
 }
 
@@ -84,7 +84,8 @@ pub fn family(rng: &mut Rng, cfg: &GenCfg, which: usize) -> Option<Vec<Doc>> {
             c.p_long = 0;
             let mut budget = 4;
             let sk = crate::dom::gen_skel(rng, &c, "p", 1, &mut budget);
-            let n = *rng.pick(&[10usize, 20, 33, 50, 65, 129, 257, 1025]);
+            // occurrence counts around the widths of narrow counters (u8, u16) and their multiples
+            let n = *rng.pick(&[10usize, 20, 33, 50, 65, 129, 255, 256, 257, 512, 1025, 4096]);
             let k = rng.range(1, 2);
             let mut docs = Vec::new();
             for _ in 0..k {
@@ -95,6 +96,34 @@ pub fn family(rng: &mut Rng, cfg: &GenCfg, which: usize) -> Option<Vec<Doc>> {
                 }
                 docs.push(Doc::plain(root));
             }
+            if rng.pct(50) {
+                // the wide occurrence comes later in the history: first a document with a single such child
+                let mut root = Elem::new("r");
+                let mut b = 1000;
+                root.kids.push(Node::Elem(crate::dom::inst(rng, &c, &sk, &mut b)));
+                docs.insert(0, Doc::plain(root));
+            }
+            Some(docs)
+        }
+        5 => {
+            // huge accumulated occurrence count: a table of 33000..70000 tiny rows, supplied once or twice
+            let rows = *rng.pick(&[33_000usize, 65_535, 65_536, 70_000]);
+            let mut root = Elem::new("r");
+            for _ in 0..rows {
+                let mut row = Elem::new("row");
+                row.selfclose = true;
+                root.kids.push(Node::Elem(row));
+            }
+            let d = Doc::plain(root);
+            let mut small = Elem::new("r");
+            let mut row = Elem::new("row");
+            row.selfclose = true;
+            small.kids.push(Node::Elem(row));
+            let mut docs = vec![d.clone()];
+            if rng.pct(60) {
+                docs.push(d);
+            }
+            docs.push(Doc::plain(small));
             Some(docs)
         }
         2 => {
@@ -259,7 +288,7 @@ fn gen_session(rng: &mut Rng, no_twins: bool, c06: bool) -> Session {
     let k = if c06 { rng.range(2, 5) } else { *rng.pick(&[1usize, 1, 2, 2, 3, 3, 4, 5]) };
     let docs = match special_family(rng, &cfg) {
         // the unreliable-delivery property is not about depth: keep its (many-replica) sessions shallow
-        Some(d) if !(c06 && (d.iter().any(|x| x.root.depth() > 60) || d.len() > 5 || d.iter().map(|x| x.root.count()).sum::<usize>() > 600)) => d,
+        Some(d) if !(c06 && (d.iter().any(|x| x.root.depth() > 60) || d.len() > 5 || (d.iter().map(|x| x.root.count()).sum::<usize>() > 1500 && d[0].root.count() < 30_000))) => d,
         _ => gen_history(rng, &cfg, k).1,
     };
     let very_deep = docs.iter().any(|x| x.root.depth() > 140);
